@@ -40,6 +40,25 @@ def seeded_table():
     return '\n'.join(head + rows)
 
 
+def neutral_table():
+    rows = []
+    for m in sorted(glob.glob(os.path.join(HERE, 'neutral', '*', 'meta.json'))):
+        j = json.load(open(m))
+        sid = os.path.basename(os.path.dirname(m))
+        cr = j.get('check_result', {})
+        if not cr.get('detected'):
+            res = 'silent'
+        elif 'no-failing-input-found' in cr.get('how', ''):
+            res = 'tie broken: VIOLATION … no-failing-input-found ({})'.format(
+                '; '.join(cr.get('first_reports', [])[:1])[:160].replace('|', '\\|'))
+        else:
+            res = '**FALSE ALARM** ({})'.format('; '.join(cr.get('first_reports', [])[:1])[:160].replace('|', '\\|'))
+        rows.append('| {} | {} | {} | {} |'.format(
+            sid, j.get('property', ''), (j.get('summary', '') or '').replace('|', '\\|')[:300], res))
+    head = ['| rewrite | property | what was rewritten (behaviour unchanged) | check result (quick tier) |', '|---|---|---|---|']
+    return '\n'.join(head + rows)
+
+
 def status_table():
     rows = []
     man = json.load(open(os.path.join(HERE, 'MANIFEST.json')))
@@ -80,7 +99,8 @@ def asbuilt():
 def main():
     path = os.path.join(HERE, 'DESIGN.md')
     s = open(path).read()
-    for name, fn in [('FINDINGS', findings_tables), ('SEEDED', seeded_table), ('STATUS', status_table), ('ASBUILT', asbuilt)]:
+    for name, fn in [('FINDINGS', findings_tables), ('SEEDED', seeded_table), ('STATUS', status_table), ('ASBUILT', asbuilt),
+                     ('NEUTRAL', neutral_table)]:
         b, e = '<!-- BEGIN {} -->'.format(name), '<!-- END {} -->'.format(name)
         if b in s and e in s:
             s = s[:s.index(b) + len(b)] + '\n' + fn() + '\n' + s[s.index(e):]
